@@ -3019,15 +3019,6 @@ pub fn partial_p18_r3_l19_2_20() {
     partial_step::<18, 3, 19, 2, 20>()
 }
 
-//@ harness props=C05,C15 tier=thorough unwind=22 unwindset=process_mode:7 mem_gb=4 timeout=900 native=no opt_covers=commit_and_carry,nothing_committed
-//@ bound: one process_stream call: carry 18 bytes, reader 8 bytes, symbol lengths 1,1,1(,20); contents/range/code symbolic; abstract symbols
-#[cfg_attr(kani, kani::proof)]
-#[cfg_attr(kani, kani::stub(std::fmt::format, crate::verif_common::stub_format))]
-#[cfg_attr(kani, kani::stub(std::io::Error::is_interrupted, crate::verif_common::stub_not_interrupted))]
-#[cfg_attr(kani, kani::stub(crate::decode::lzma::DecoderState::process_next_inner, crate::decode::lzma::verif_h::abs_symbol))]
-pub fn partial_p18_r8_l1_1_1() {
-    partial_step::<18, 8, 1, 1, 1>()
-}
 
 //@ harness props=C05,C15 tier=thorough unwind=22 unwindset=process_mode:7 mem_gb=4 timeout=900 native=no opt_covers=commit_and_carry,nothing_committed
 //@ bound: one process_stream call: carry 18 bytes, reader 8 bytes, symbol lengths 2,19,1(,20); contents/range/code symbolic; abstract symbols
@@ -3219,15 +3210,6 @@ pub fn partial_p19_r3_l19_2_20() {
     partial_step::<19, 3, 19, 2, 20>()
 }
 
-//@ harness props=C05,C15 tier=thorough unwind=22 unwindset=process_mode:7 mem_gb=4 timeout=900 native=no opt_covers=commit_and_carry,nothing_committed
-//@ bound: one process_stream call: carry 19 bytes, reader 8 bytes, symbol lengths 1,1,1(,20); contents/range/code symbolic; abstract symbols
-#[cfg_attr(kani, kani::proof)]
-#[cfg_attr(kani, kani::stub(std::fmt::format, crate::verif_common::stub_format))]
-#[cfg_attr(kani, kani::stub(std::io::Error::is_interrupted, crate::verif_common::stub_not_interrupted))]
-#[cfg_attr(kani, kani::stub(crate::decode::lzma::DecoderState::process_next_inner, crate::decode::lzma::verif_h::abs_symbol))]
-pub fn partial_p19_r8_l1_1_1() {
-    partial_step::<19, 8, 1, 1, 1>()
-}
 
 //@ harness props=C05,C15 tier=thorough unwind=22 unwindset=process_mode:7 mem_gb=4 timeout=900 native=no opt_covers=commit_and_carry,nothing_committed
 //@ bound: one process_stream call: carry 19 bytes, reader 8 bytes, symbol lengths 2,19,1(,20); contents/range/code symbolic; abstract symbols
